@@ -30,7 +30,8 @@ TYPES = ["int", "float", "ints", "floats", "bool", "int(value_min=0, value_max=1
 ATOMS = ["1", "-1", "0", "2", "3", "7", "8", "10", "11", "1.5", "-0.5", "0.5", "2.5", "1e3", "4/2", "3/2", "2**3", "1e-3", "10/4",
          "inf", "-inf", "nan", "1e999", "-1e999", "10**400", "1/0", "2**0.5", "1j", "None", "none", "NONE", "Auto", "auto", "True",
          "true", "TRUE", "False", "false", "yes", "Yes", "no", "on", "off", "ON", "oFF", "x", "'1'", '"2"', "pi", "sqrt(4)",
-         "sqrt(-1)", "0x10", "1_0", "007", "+5", "--1", "1.", ".5", "1e", "()", "[]", "(", ")", "+", "maybe", "2", "y", "'yes'"]
+         "sqrt(-1)", "0x10", "1_0", "007", "+5", "--1", "1.", ".5", "1e", "()", "[]", "(", ")", "+", "maybe", "2", "y", "'yes'",
+         '"None"', "'none'", '" None "', '"Auto"', "' auto'", '"true"', "'False'", '""', '" "', "'3'", '"1 2"', "'1,2'"]
 SEPS = [" ", ",", ";", ", ", " ; ", "  "]
 MUST_ACCEPT = [
     ("int", "4/2", 2), ("int", "1e3", 1000), ("int", "2**3", 8), ("int", "-3.0", -3),
